@@ -1,8 +1,177 @@
 import CnlDriver.CS
-/-! `C13` driver table (stub). -/
-namespace Cnl.Drv
-open Cnl
+import CnlModel.Charconv
+import CnlSpec.Decimal
+/-!
+`C13` driver table: `to_chars` stays inside `[first,last)` and reports failure cleanly.
 
-def checkC13 (_toks : List String) (_res : String) : Option Verdict := none
+Lines (the same translation units serve C13 and C14; only the table name differs):
+
+    int <T> <base> <len> <v>      => <ec>:<ptr>:<buffer>     cnl::to_chars on a built-in integer
+    sc  sc(T,E,R) <len> <rep>     => <ec>:<ptr>:<buffer>     cnl::to_chars on scaled_integer<T, power<E,R>>
+    cap <type>                    => <n>                     to_chars_capacity<type>{}()
+    fix <type> <v>                => <length>:<array>|<to_string>|<operator<<>|<ec>:<ptr>:<buffer at capacity>
+
+`<ec>` is `ok` or `big` (value_too_large), `<ptr>` the offset of the returned pointer from `first`
+(`null` for a null pointer), `<buffer>` the bytes of 4 guard cells, the `len` cells and 4 guard cells
+after the call (printable bytes as themselves, others `\hh`; untouched cells `#`, guards `@`; a
+trailing `!far` if a guard byte further away changed).  The model predicts every byte.
+-/
+namespace Cnl.Drv
+open Cnl Cnl.Charconv
+
+def hexDigit (n : Nat) : Char := if n < 10 then Char.ofNat (48 + n) else Char.ofNat (87 + n)
+
+def encChar (c : Char) : List Char :=
+  if c.toNat > 0x20 ∧ c.toNat < 0x7f ∧ c ≠ '\\' ∧ c ≠ '|' then [c]
+  else ['\\', hexDigit (c.toNat / 16 % 16), hexDigit (c.toNat % 16)]
+
+def encChars (cs : List Char) : String := String.ofList (cs.flatMap encChar)
+
+def hexVal (c : Char) : Nat :=
+  if '0' ≤ c ∧ c ≤ '9' then c.toNat - 48 else if 'a' ≤ c ∧ c ≤ 'f' then c.toNat - 87 else 0
+
+def decChars : List Char → List Char
+  | '\\' :: a :: b :: r => Char.ofNat (hexVal a * 16 + hexVal b) :: decChars r
+  | c :: r => c :: decChars r
+  | [] => []
+
+def guardStr : String := "@@@@"
+
+def showTCR (r : TCR) : String :=
+  let ec := if r.ok then "ok" else "big"
+  let p := match r.ptr with
+    | some p => toString p
+    | none => "null"
+  ec ++ ":" ++ p ++ ":" ++ guardStr ++ encChars (r.buf.cells.map (fun c => c.getD '#')) ++ guardStr
+
+/-- an implementation result `<ec>:<ptr>:<buffer>` -/
+structure ImplTCR where
+  ok : Bool
+  ptr : Option Nat
+  bytes : List Char
+  far : Bool
+
+def parseImplTCR (res : String) : Option ImplTCR :=
+  match res.splitOn ":" with
+  | ec :: p :: rest =>
+    let body := ":".intercalate rest
+    let far := body.endsWith "!far"
+    let body := if far then (body.dropEnd 4).toString else body
+    let ok? := if ec == "ok" then some true else if ec == "big" then some false else none
+    let ptr? : Option (Option Nat) := if p == "null" then some none else p.toNat?.map some
+    match ok?, ptr? with
+    | some ok, some ptr => some ⟨ok, ptr, decChars body.toList, far⟩
+    | _, _ => none
+  | _ => none
+
+/-- C13 on one call: nothing outside `[first,last)` changed; success ⇒ `0 < p ≤ len`, exactly `[0,p)`
+written; failure ⇒ pointer = `last` -/
+def c13Contract (len : Nat) (res : String) : Bool :=
+  match parseImplTCR res with
+  | none => false
+  | some r =>
+    let g := guardStr.toList
+    r.far == false && r.bytes.length == len + 8 && r.bytes.take 4 == g && r.bytes.drop (len + 4) == g &&
+    (let body := (r.bytes.drop 4).take len
+     match r.ok, r.ptr with
+     | true, some p => decide (0 < p) && decide (p ≤ len) && (body.take p).all (· != '#') && (body.drop p).all (· == '#')
+     | false, some p => p == len
+     | _, none => false)
+
+inductive TyK where
+  | int (T : IntTy)
+  | sc (T : IntTy) (e : Int) (radix : Nat)
+
+def parseTyK (s : String) : Option TyK :=
+  match parseTy s with
+  | some (.int T) => some (.int T)
+  | some (.sc (.int T) e x) => some (.sc T e x)
+  | _ => none
+
+def isMostNegMsg : Res TCR → Bool
+  | .unreachable m => m == "assert: most negative value"
+  | _ => false
+
+def isMostNegMsgT : Res (List Char) → Bool
+  | .unreachable m => m == "assert: most negative value"
+  | _ => false
+
+/-- the text of a result at capacity, as the `fix` line shows it -/
+def showFix (cap : Int) (text : Res (List Char)) (tc : Res TCR) : String :=
+  match text, tc with
+  | .ok t, .ok r =>
+    let arr := t ++ List.replicate (cap.toNat + 1 - t.length) (Char.ofNat 0)
+    toString t.length ++ ":" ++ encChars arr ++ "|" ++ encChars t ++ "|" ++ encChars t ++ "|" ++ showTCR r
+  | .ok _, o => showRes (fun _ => "") o
+  | o, _ => showRes (fun _ => "") o
+
+def branchOf (r : Res TCR) (sci : Bool) : String :=
+  match r with
+  | .ok t => if t.ok then (if sci then "ok/scientific" else "ok/fixed") else "too_large"
+  | .unreachable _ => "assert"
+  | .diverges => "diverges"
+  | .oob _ => "oob"
+  | _ => "ub"
+
+def hasE (r : Res TCR) : Bool :=
+  match r with
+  | .ok t => t.buf.cells.contains (some 'e')
+  | _ => false
+
+/-- model evaluation of a protocol line, shared by C13 and C14:
+`(model string, known-defect tag, branch, len)` -/
+def evalCharconv (toks : List String) : Option (String × String × String) :=
+  match toks with
+  | ["int", t, base, len, v] => do
+    let T ← parseIntTy t; let base ← base.toNat?; let len ← len.toNat?; let v ← v.toInt?
+    let r := intToChars T (Buf.fresh len) v base
+    some (showRes showTCR r, if isMostNegMsg r then "most_negative_integer" else "",
+      "int/" ++ (match r with | .ok t => (if t.ok then "ok" else "too_large") | _ => "assert"))
+  | ["sc", t, len, rep] => do
+    let .sc T e x ← parseTyK t | none
+    let len ← len.toNat?; let rep ← rep.toInt?
+    let r := scaledToChars T e x len rep
+    some (showRes showTCR r, if isMostNegMsg r then "most_negative_integer" else "", "sc/" ++ branchOf r (hasE r))
+  | ["cap", t] => do
+    match ← parseTyK t with
+    | .int T => some (toString (intCapacity T), "", "cap/int")
+    | .sc T e x => some (toString (scaledCapacity T e x), "", "cap/sc")
+  | ["fix", t, v] => do
+    let v ← v.toInt?
+    match ← parseTyK t with
+    | .int T =>
+      let tx := intStaticText T v
+      some (showFix (intCapacity T) tx (intToChars T (Buf.fresh (intCapacity T)) v 10),
+        if isMostNegMsgT tx then "most_negative_integer" else "", "fix/int")
+    | .sc T e x =>
+      let tx := scaledStaticText T e x v
+      some (showFix (scaledCapacity T e x) tx (scaledToChars T e x (scaledCapacity T e x).toNat v),
+        if isMostNegMsgT tx then "most_negative_integer" else "", "fix/sc")
+  | _ => none
+
+def checkC13 (toks : List String) (res : String) : Option Verdict := do
+  let (m, tag, br) ← evalCharconv toks
+  let cls := if tag.isEmpty then "" else "C13." ++ tag
+  match toks with
+  | ["int", _, _, len, _] =>
+    let len ← len.toNat?
+    some { model := m, spec := some (c13Contract len res), cls := cls, branch := br, nontrivial := len > 0 }
+  | ["sc", _, len, _] =>
+    let len ← len.toNat?
+    some { model := m, spec := some (c13Contract len res), cls := cls, branch := br, nontrivial := len > 0 }
+  | ["cap", _] => some { model := m, spec := none, branch := br, nontrivial := false }
+  | ["fix", _, _] =>
+    -- the fixed-capacity variants succeed for every value: four fields, the last an `ok` result inside its buffer
+    let good := match res.splitOn "|" with
+      | [st, _, _, tc] =>
+        (match st.splitOn ":" with
+          | n :: _ => (n.toNat?.getD 0) > 0
+          | _ => false) &&
+        (match parseImplTCR tc with
+          | some r => r.ok && c13Contract (r.bytes.length - 8) tc
+          | none => false)
+      | _ => false
+    some { model := m, spec := some good, cls := cls, branch := br }
+  | _ => none
 
 end Cnl.Drv
